@@ -15,8 +15,7 @@ type tok struct {
 	k    byte // 'w' word, 'a' atomic, 'n' br, 'o' span start, 'x' span end
 	s    string
 	node Node // template for 'o' / 'a'
-	// tight: no white space may be put just inside this edge (spans with start spacing whose
-	// content must stay one unbreakable unit, see finding D1)
+	// tight: no white space may be put just inside this edge (findings D15 for 'o', D7 for 'x')
 	tight bool
 	// leaf ('x'): the span holds a single text node
 	leaf bool
@@ -141,20 +140,11 @@ func (g *pgen) seq(depth int, want int) {
 		switch {
 		case g.feat.Spans && depth < 3 && g.r.Intn(5) == 0:
 			n := g.spanNode(depth)
-			// finding D1: the start spacing of an inline box is not charged when its own content
-			// is split, so in wrapping modes a span with start spacing holds one unbreakable word
-			single := g.wrap && n.ML+n.BL+n.PL > 0 && !lifted("D1")
-			if single && g.r.Intn(2) == 0 {
-				n.ML, n.BL, n.PL = 0, 0, 0
-				single = false
-			}
 			// finding D15: the start spacing of an inline box is dropped when the box begins with
 			// a collapsible space that is skipped at a line start; no space just inside such an edge
 			g.toks = append(g.toks, tok{k: 'o', node: n, tight: n.ML+n.BL+n.PL > 0 && !lifted("D15")})
 			first := len(g.toks)
 			switch {
-			case single:
-				g.toks = append(g.toks, tok{k: 'w', s: g.wordH(false)})
 			case g.wrap && n.MR+n.BR+n.PR > 0 && !lifted("D9"):
 				// finding D9: the end spacing is charged by re-splitting the last child only, so
 				// a span with end spacing holds nothing but words (one text node)
@@ -198,7 +188,7 @@ func (g *pgen) seq(depth int, want int) {
 }
 
 func (g *pgen) sep(a, b tok, nedges int, topLevel bool) string {
-	glue := g.feat.Glue && (topLevel || !g.wrap || lifted("D4"))
+	glue := g.feat.Glue
 	space := func() string {
 		if g.ws == "pre-wrap" {
 			// preserved spaces: only single spaces between words and none before a forced break
